@@ -320,11 +320,13 @@ def streamdata_ackfreq(r, idx):
         cfg[side]["send_window"] = r.choice([3000, 6000, 12000])
         if r.random() < 0.3:
             cfg[side]["cc"] = r.choice(["newreno", "bbr", "cubic"])
-    cfg["latency_us"] = r.choice([15000, 30000, 60000])
-    if r.random() < 0.5:
-        cfg["jitter_us"] = r.choice([5000, 20000])
-    cfg["fates_c2s"] = fates(r, 20, 0.2)
-    cfg["fates_s2c"] = fates(r, 20, 0.2)
+    if r.random() < 0.6:
+        return _ackfreq_sparse(r, idx, cfg)
+    cfg["latency_us"] = r.choice([5000, 10000, 30000])
+    # neighbouring datagrams swap places (within the reordering threshold: nothing is retransmitted)
+    cfg["jitter_us"] = r.choice([3000, 10000, 25000])
+    cfg["fates_c2s"] = fates(r, 20, 0.1)
+    cfg["fates_s2c"] = fates(r, 20, 0.1)
     steps = [{"do": "connect", "n": 1}, {"do": "run_until", "what": "connected", "max_us": 20000000}]
     for n in (1, 0):
         w = workload(r, n=n, big=True)
@@ -335,10 +337,63 @@ def streamdata_ackfreq(r, idx):
         steps.append(w)
     for k in range(r.choice([4, 6, 9])):
         steps.append({"do": "run", "us": r.choice([100000, 250000, 500000])})
-        steps.append({"do": "set", "key": "latency_us", "v": r.choice([8000, 20000, 50000, 110000, 180000])})
+        steps.append({"do": "set", "key": "latency_us", "v": r.choice([5000, 20000, 50000, 110000, 180000])})
     steps.append({"do": "run_until", "what": "apps", "max_us": 120000000})
     steps.append({"do": "run", "us": 300000})
     return {"cfg": cfg, "steps": steps, "tag": {"family": "streamdata-ackfreq", "idx": idx, "fates": False}}
+
+
+def streamdata_ackfreq_hold(r, idx, n, hold_us):
+    """Systematic companion of streamdata_ackfreq: a window-limited upload, the path's latency jumps
+    from 10 to 110 ms (each of the next RTT samples moves the estimate by more than a fifth: three or
+    four ACK_FREQUENCY requests in consecutive packets, next to stream data), and exactly one datagram -
+    the n-th after the jump - is held back by hold_us: little enough not to be declared lost."""
+    cfg = base_cfg(r, server={"idle_ms": 30000}, client={"idle_ms": 30000})
+    for side in ("server", "client"):
+        cfg[side]["ack_freq"] = True
+        cfg[side]["ack_freq_threshold"] = r.choice([0, 1, 2])
+        cfg[side]["ack_freq_max_delay_ms"] = 400
+    cfg["client"]["send_window"] = r.choice([3000, 6000, 12000])
+    cfg["latency_us"] = 10000
+    steps = [{"do": "connect", "n": 1}, {"do": "run_until", "what": "connected", "max_us": 20000000}]
+    w = {"do": "app", "n": 1, "c": 0, "streams": [{"dir": 1, "size": 60000, "chunk": r.choice([700, 1200, 5000]), "finish": True}],
+         "read_max": 1 << 20, "ordered": True, "maxsize": 60000}
+    steps.append(w)
+    steps.append({"do": "run", "us": r.choice([60000, 100000])})
+    steps.append({"do": "set", "key": "latency_us", "v": 110000})
+    steps.append({"do": "fates", "dir": "c2s", "list": ["ok"] * n + ["delay:%d" % hold_us]})
+    steps.append({"do": "run_until", "what": "apps", "max_us": 120000000})
+    steps.append({"do": "run", "us": 300000})
+    return {"cfg": cfg, "steps": steps, "tag": {"family": "streamdata-ackfreq-hold", "idx": idx, "fates": False, "n": n, "hold": hold_us}}
+
+
+def _ackfreq_sparse(r, idx, cfg):
+    """A quiet sender on a path whose latency has just jumped: every acknowledgement moves the RTT
+    estimate and the next packet carries a new ACK_FREQUENCY request next to a little stream data; single
+    datagrams are held back for more than an RTT without being declared lost (nothing later is
+    acknowledged in between), so an older request arrives after a newer one - with first-transmission
+    data behind it."""
+    for side in ("server", "client"):
+        cfg[side].pop("send_window", None)
+    cfg["latency_us"] = r.choice([5000, 10000])
+    steps = [{"do": "connect", "n": 1}, {"do": "run_until", "what": "connected", "max_us": 20000000},
+             {"do": "run", "us": r.choice([0, 50000])}]
+    lat = r.choice([60000, 100000, 150000])
+    steps.append({"do": "set", "key": "latency_us", "v": lat})
+    late = "delay:%d" % r.choice([lat, lat + lat // 2, 2 * lat])
+    for k in range(r.choice([8, 14, 22])):
+        n = r.choice([1, 1, 0])
+        w = {"do": "app", "n": n, "c": 0, "streams": [{"dir": r.choice([0, 1]), "size": r.choice([1, 50, 400, 1100]), "chunk": 1 << 20, "finish": True}],
+             "read_max": 1 << 20, "ordered": True, "maxsize": 1100}
+        steps.append(w)
+        steps.append({"do": "fates", "dir": "c2s" if n == 1 else "s2c", "list": [late if r.random() < 0.45 else "ok" for _ in range(2)]})
+        steps.append({"do": "run", "us": r.choice([lat // 2, lat, 2 * lat, 3 * lat])})
+        if r.random() < 0.15:
+            lat = r.choice([20000, 60000, 100000, 150000])
+            steps.append({"do": "set", "key": "latency_us", "v": lat})
+    steps.append({"do": "run_until", "what": "apps", "max_us": 60000000})
+    steps.append({"do": "run", "us": 300000})
+    return {"cfg": cfg, "steps": steps, "tag": {"family": "streamdata-ackfreq-sparse", "idx": idx, "fates": False}}
 
 
 def streamdata_zerortt(r, idx):
